@@ -2478,3 +2478,89 @@ impl Default for Fs {
         Self::new(FsConfig::default(), 0)
     }
 }
+
+/// One pending operation as reported by [`Fs::verif_dump`].
+#[cfg(feature = "verif-hooks")]
+#[derive(Debug, Clone, PartialEq, Eq)]
+pub struct VerifPendingOp {
+    /// Variant name of the pending operation (`CreateFile`, `Write`, ...).
+    pub kind: &'static str,
+    /// Path the operation is logged under (`from` for a rename).
+    pub path: PathBuf,
+    /// Destination of a rename / target of a link.
+    pub to: Option<PathBuf>,
+    /// Offset of a write, new length of a `SetLen`.
+    pub num: u64,
+    /// Payload of a write.
+    pub data: Vec<u8>,
+}
+
+/// Read-only snapshot of the durable maps and the pending log.
+#[cfg(feature = "verif-hooks")]
+#[derive(Debug, Clone, PartialEq, Eq)]
+pub struct VerifDump {
+    pub persisted_files: Vec<(PathBuf, Vec<u8>)>,
+    pub persisted_dirs: Vec<PathBuf>,
+    pub persisted_symlinks: Vec<PathBuf>,
+    pub synced_entries: Vec<PathBuf>,
+    pub pending: Vec<VerifPendingOp>,
+    pub open_handles: Vec<(RawFd, PathBuf)>,
+}
+
+#[cfg(feature = "verif-hooks")]
+impl Fs {
+    /// Verification hook: snapshot of the persisted maps, the durable
+    /// directory entries, the pending operation log and the open-handle
+    /// table. Read-only.
+    pub fn verif_dump(&self) -> VerifDump {
+        let op = |kind: &'static str, path: &Path, to: Option<&Path>, num: u64, data: &[u8]| {
+            VerifPendingOp {
+                kind,
+                path: path.to_path_buf(),
+                to: to.map(Path::to_path_buf),
+                num,
+                data: data.to_vec(),
+            }
+        };
+        let pending = self
+            .pending
+            .iter()
+            .map(|p| match p {
+                PendingOp::CreateFile { path, .. } => op("CreateFile", path, None, 0, &[]),
+                PendingOp::CreateDir { path, .. } => op("CreateDir", path, None, 0, &[]),
+                PendingOp::CreateSymlink { path, target, .. } => {
+                    op("CreateSymlink", path, Some(target), 0, &[])
+                }
+                PendingOp::CreateHardLink { path, target, .. } => {
+                    op("CreateHardLink", path, Some(target), 0, &[])
+                }
+                PendingOp::Write {
+                    path, offset, data, ..
+                } => op("Write", path, None, *offset, data),
+                PendingOp::SetLen { path, len, .. } => op("SetLen", path, None, *len, &[]),
+                PendingOp::SetPermissions { path, mode, .. } => {
+                    op("SetPermissions", path, None, *mode as u64, &[])
+                }
+                PendingOp::Rename { from, to } => op("Rename", from, Some(to), 0, &[]),
+                PendingOp::RemoveFile { path } => op("RemoveFile", path, None, 0, &[]),
+                PendingOp::RemoveDir { path } => op("RemoveDir", path, None, 0, &[]),
+            })
+            .collect();
+        VerifDump {
+            persisted_files: self
+                .persisted_files
+                .iter()
+                .map(|(p, d)| (p.clone(), d.content.clone()))
+                .collect(),
+            persisted_dirs: self.persisted_dirs.keys().cloned().collect(),
+            persisted_symlinks: self.persisted_symlinks.keys().cloned().collect(),
+            synced_entries: self.synced_entries.iter().cloned().collect(),
+            pending,
+            open_handles: self
+                .open_handles
+                .iter()
+                .map(|(fd, p)| (*fd, p.clone()))
+                .collect(),
+        }
+    }
+}
